@@ -657,6 +657,12 @@ func c20Views(t *c20, e gen.Env) {
 				in[r.Intn(len(in))] = byte(r.Intn(256))
 			}
 		}
+		if r.Intn(3) == 1 && len(in) > vt.min {
+			// cut anywhere behind the minimum length, in a slice of exactly that size: a view that is still valid must render
+			// without reaching past its end (options and trailing fields cut in the middle)
+			in = append(make([]byte, 0, vt.min), in[:vt.min+r.Intn(len(in)-vt.min)]...)
+			in = in[:len(in):len(in)]
+		}
 		c.Begin(t.idx, vt.name+".String", in)
 		c.Eval()
 		val := reflect.ValueOf(in).Convert(vt.typ)
